@@ -30,8 +30,10 @@ PROPS = {
             dict(run=B + "VerifC03List", quick=dict(ops=2, keys=2), thorough=dict(ops=2, keys=3), covers=["list-cut", "list-multi", "done"]),
             dict(run=B + "VerifC03Again", quick=dict(ops=1, keys=2), thorough=dict(ops=2, keys=2), covers=["done"]),
             dict(run=B + "VerifC03Count", quick=dict(ops=2, keys=2), thorough=dict(ops=3, keys=2), covers=["done"]),
+            dict(run=B + "VerifInductiveStep", name="C03_inductive", quick=dict(val9=0, maxversions=2, stepkind=0), thorough=dict(val9=0, maxversions=3, stepkind=0),
+                 covers=["get-present", "get-absent", "compacted", "done"]),
         ],
-        bounds=dict(quick="histories of 2 symbolic writes (+1 further write) over 2 prefix-related names; values of 1 or 9 symbolic bytes; expected revisions unconstrained 64-bit; read revision symbolic in [first, committed] or 0; 5 ranges; limits 0..n+1; revision base 5",
+        bounds=dict(quick="histories of 2 symbolic writes (+1 further write) over 2 prefix-related names; values of 1 or 9 symbolic bytes; expected revisions unconstrained 64-bit; read revision symbolic in [first, committed] or 0; 5 ranges; limits 0..n+1; revision base 5; reads at every revision from the floor up after one arbitrary step from an arbitrary invariant-satisfying state of one key (0..2 versions)",
                     thorough="histories of 3 writes over 2 names / 2 writes over 3 names (+1 further write)"),
         outside="reads below the compaction floor (C08); engines' own snapshot isolation (C11); keys outside the name set",
         assumptions=["storage engine honours the documented KvStorage contract (model store zzmodel.Store; adapters checked in C11)"],
@@ -42,9 +44,11 @@ PROPS = {
                  covers=["both-succeed", "one-loses", "done"]),
             dict(run=B + "VerifC01Race", name="C01_scenarios", quick=dict(scenario=1, keys=1, val9=0, preempt=1), thorough=dict(scenario=1, keys=1, val9=0, preempt=2),
                  covers=["both-succeed", "one-loses", "done"]),
+            dict(run=B + "VerifInductiveStep", name="C01_inductive", quick=dict(val9=0, maxversions=2, stepkind=1), thorough=dict(val9=0, maxversions=3, stepkind=1),
+                 covers=["create-ok", "create-refused", "update-ok", "update-refused", "delete-ok", "delete-refused", "index-absent-over-deletion-mark", "done"]),
             dict(run=B + "VerifC01Seq", quick=dict(ops=3, keys=1, val9=0), thorough=dict(ops=3, keys=2, val9=0), covers=["create-ok", "create-refused", "update-ok", "update-refused", "delete-ok", "delete-refused", "delete-absent", "done"]),
         ],
-        bounds=dict(quick="2 concurrent clients on 1 key after a 1-write history (initial states: never existed, live, deleted), every interleaving of their store operations and revision dealing with at most 1 preemption; sequential histories of 3 writes; expected revisions unconstrained 64-bit; both conflict-reporting styles of the engine contract; the same two clients after fixed key histories (deleted with the mark present, two versions, deleted and re-created)",
+        bounds=dict(quick="2 concurrent clients on 1 key after a 1-write history (initial states: never existed, live, deleted), every interleaving of their store operations and revision dealing with at most 1 preemption; sequential histories of 3 writes; expected revisions unconstrained 64-bit; both conflict-reporting styles of the engine contract; the same two clients after fixed key histories (deleted with the mark present, two versions, deleted and re-created); one write from an arbitrary store state of one key satisfying the representation invariant (0..2 versions with symbolic revisions, deletion marks, every allowed form of the index record, any compaction record), invariant re-established (inductive step)",
                     thorough="2 clients after 2-write histories with at most 2 preemptions; sequential histories of 3 writes over 2 keys"),
         outside="engines' own transaction isolation (assumed by the contract store; adapters in C11); unknown-outcome faults (C09); more than 2 concurrent clients; deleted-and-compacted initial state is covered by C07's after-compaction write",
         assumptions=["an unguarded delete (expected revision 0) is executed as 'delete the version I read'; its failure is accepted when a concurrent write to the key succeeded while it was in flight"],
@@ -69,8 +73,10 @@ PROPS = {
             dict(run=B + "VerifC07Borders", quick=dict(maxskip=2, keylen=4), thorough=dict(maxskip=2, keylen=6), covers=["with-skipped", "done"]),
             dict(run=B + "VerifC07Race", quick=dict(preempt=1), thorough=dict(preempt=2), covers=["racing-write-succeeded", "get-present", "get-absent", "done"], stress=20),
             dict(run=B + "VerifC07Interleave", quick=dict(points=8), thorough=dict(points=12), covers=["write-inside-compaction", "write-after-compaction", "interleaved-write-succeeded", "done"]),
+            dict(run=B + "VerifInductiveStep", name="C07_inductive", quick=dict(val9=0, maxversions=2, stepkind=2), thorough=dict(val9=0, maxversions=3, stepkind=2),
+                 covers=["compacted", "get-present", "get-absent", "done"]),
         ],
-        bounds=dict(quick="histories of 2 writes on 1 key (multi-version, tombstones, re-created), compaction at every revision R in (base, current], one fault (error / unknown-applied / compactor dies) at any compaction delete, reads at every R' >= R and latest, one further write; compaction racing one symbolic write (create / update / delete) on a key with a tombstone, two live versions or a re-created key, interleaved at the store operations, revision dealing and request boundaries with <= 1 scheduling delay; compaction ranges for prefix /r with 0..2 skipped prefixes of symbolic bytes (conditions of KubeBrainOption.Validate assumed) against a symbolic raw key of 2..5 bytes; a whole write (any kind, symbolic expectation) placed before any of the first 8 store operations of the compaction or after it (3 key histories)",
+        bounds=dict(quick="histories of 2 writes on 1 key (multi-version, tombstones, re-created), compaction at every revision R in (base, current], one fault (error / unknown-applied / compactor dies) at any compaction delete, reads at every R' >= R and latest, one further write; compaction racing one symbolic write (create / update / delete) on a key with a tombstone, two live versions or a re-created key, interleaved at the store operations, revision dealing and request boundaries with <= 1 scheduling delay; compaction ranges for prefix /r with 0..2 skipped prefixes of symbolic bytes (conditions of KubeBrainOption.Validate assumed) against a symbolic raw key of 2..5 bytes; a whole write (any kind, symbolic expectation) placed before any of the first 8 store operations of the compaction or after it (3 key histories); one compaction at any revision from an arbitrary invariant-satisfying state of one key (0..2 versions), reads from the floor up unchanged, invariant re-established",
                     thorough="histories of 3 writes, up to 2 faults; the race with <= 2 scheduling delays; 12 positions for the whole write"),
         outside="time-based expiry (C17); more than one concurrent writer during the scan; more than 2 skipped prefixes or skipped prefixes longer than <prefix>+3 bytes",
     ),
